@@ -209,7 +209,7 @@ func (ma *ModuleAnalyzer) analyzeModuleDependencies(graph *DependencyGraph, file
 		if targetModule != "" && ma.shouldIncludeDependency(targetModule) {
 			// Skip dependencies from __init__.py to its own submodules
 			// This is a common Python pattern for re-exporting (internal structure)
-			if strings.HasSuffix(filePath, "__init__.py") {
+			if filepath.Base(filePath) == "__init__.py" {
 				// Check if target is a submodule of the current package
 				if strings.HasPrefix(targetModule, moduleName+".") {
 					continue // Skip this dependency
@@ -249,7 +249,7 @@ func (ma *ModuleAnalyzer) analyzeModuleDependencies(graph *DependencyGraph, file
 				// (in sorted order so that edges are added deterministically)
 				for _, resolvedModule := range sortedModuleSet(resolvedModules) {
 					// __init__.py importing its own submodules is internal structure (see above)
-					if strings.HasSuffix(filePath, "__init__.py") && strings.HasPrefix(resolvedModule, moduleName+".") {
+					if filepath.Base(filePath) == "__init__.py" && strings.HasPrefix(resolvedModule, moduleName+".") {
 						continue
 					}
 					graph.AddDependency(moduleName, resolvedModule, edgeType, imp)
@@ -566,7 +566,8 @@ func (ma *ModuleAnalyzer) filePathToModuleName(filePath string) string {
 	relPath = strings.TrimSuffix(relPath, ".py")
 
 	// Handle __init__.py files
-	if strings.HasSuffix(relPath, "__init__") {
+	// (only a file NAMED __init__.py: my__init__.py is the module my__init__)
+	if filepath.Base(relPath) == "__init__" {
 		relPath = relPath[:len(relPath)-len("__init__")]
 		if strings.HasSuffix(relPath, string(filepath.Separator)) {
 			relPath = relPath[:len(relPath)-1]
